@@ -30,11 +30,11 @@ func (x *fnExec) builtin(fr *frame, st *State, b *ssa.Builtin, cc *ssa.CallCommo
 				return scalar(BVU(uint64(len(constStr(c))), 64), resT)
 			}
 			r := App("strlen", BV(64), a.T)
-			x.facts = append(x.facts, Fact{x.next(), And(BVCmp("bvsge", r, BVU(0, 64)), Eq(App("strlen", BV(64), BVU(0, 64)), BVU(0, 64)))})
+			x.facts = append(x.facts, Fact{x.next(), And(BVCmp("bvsge", r, BVU(0, 64)), Eq(App("strlen", BV(64), BVU(0, 64)), BVU(0, 64))), false})
 			return scalar(r, resT)
 		case *types.Map:
 			r := App("maplen_"+typeName(u), BV(64), a.T, x.mapDomTerm(st, u, a.T))
-			x.facts = append(x.facts, Fact{x.next(), BVCmp("bvsge", r, BVU(0, 64))})
+			x.facts = append(x.facts, Fact{x.next(), BVCmp("bvsge", r, BVU(0, 64)), false})
 			return scalar(r, resT)
 		case *types.Pointer:
 			return scalar(BVU(uint64(u.Elem().Underlying().(*types.Array).Len()), 64), resT)
